@@ -553,6 +553,15 @@ def run_shard(col, k, nshards, tier, seed):
         if i % nshards == k:
             for rec in judge(c, col):
                 col.fail(rec, c)
+    # the same erroneous tail in different statement contexts, judged one after the other in this process (all shards
+    # run the family, each starting at another head): one LALR state, different acceptable continuations
+    from vf.props.c20 import ERR_HEADS, ERR_TAILS
+    fam = [h + ' ' + t for t in ERR_TAILS for h in ERR_HEADS]
+    fam = fam[k % len(fam):] + fam[:k % len(fam)]
+    for sql in fam:
+        c = {'sql': sql, 'origin': 'same-tail-family'}
+        for rec in judge(c, col):
+            col.fail(rec, c)
     if k == 0:
         col.exhaustive_parts.append('every truncation at a token boundary of %s corpus statement (original layout); '
                                     'all rejected corpus statements'
